@@ -232,8 +232,16 @@ def top_case(rnd, tier, cfgkw=None, ntop=None, clash=False, porywrap=False, fmt=
     return Case(compile_line(cfg, src), src, cfg, {"top": tg})
 
 # ---------------- C04 ----------------
+F23_SRCS = ["script A { x }\nscript A { y }\n", "script A { x }\nmovement A { walk_up }\n", "mart A { ITEM_X }\nmart A { ITEM_Y }\n",
+            "mapscripts M { MAP_SCRIPT_ON_LOAD { a } MAP_SCRIPT_ON_LOAD { b } }\n"]
+
 def gen_C04(rnd, n, tier):
-    return [top_case(rnd, tier, {"optimize": rnd.random() < 0.5}) for _ in range(n)]
+    out = [top_case(rnd, tier, {"optimize": rnd.random() < 0.5}) for _ in range(n)]
+    # the recorded finding F23 stays in the stream: equal user names / a map script type used twice
+    for src in F23_SRCS:
+        tg = TopGen(rnd, tier); cfg = base_cfg()
+        out.append(Case(compile_line(cfg, src), src, cfg, {"top": tg}))
+    return out
 
 LABEL_DEF = re.compile(r"^([^\s:]+)(::?)$")
 
